@@ -106,6 +106,7 @@ class FnSpec:
         self.loop_hints = {}
         self.subst = []         # (regex, replacement, reason) — declared, logged textual adaptation (R11/R12 family)
         self.impl_match = None
+        self.may_fail = []
         self.opens = None
         self.returns = None
 
@@ -256,7 +257,7 @@ def parse_contract_file(path, unit=None, seen=None):
             continue
         st = ln.strip()
         m = re.match(r'^(ret|requires|ensures|decreases|loop|invariant|invariant_except_break|loop_ensures|at_start|at_end|after_loop|before_loop|loop_body_start|loop_body_end|at|attr|tags|as_inherent|'
-                     r'external_body|no_body|loop_hint|subst|impl_match|returns|opens)\b\s*(.*)$', st)
+                     r'external_body|no_body|loop_hint|subst|impl_match|returns|opens|debug_assert_may_fail)\b\s*(.*)$', st)
         indent = len(ln) - len(ln.lstrip())
         if m and indent <= 4 or (m and m.group(1) in ('invariant', 'invariant_except_break', 'loop_ensures', 'decreases') and indent <= 8 and cur_clause is None):
             kw, rest = m.group(1), m.group(2)
@@ -335,6 +336,8 @@ def parse_contract_file(path, unit=None, seen=None):
                 cur_fn.loop_hints[int(a)] = b
             elif kw == 'impl_match':
                 cur_fn.impl_match = rest.strip()
+            elif kw == 'debug_assert_may_fail':
+                cur_fn.may_fail.append(rest.strip().strip('"'))
             elif kw == 'subst':
                 mm = re.match(r'^/((?:[^/\\]|\\.)*)/\s+/((?:[^/\\]|\\.)*)/\s+(.*)$', rest)
                 if not mm:
@@ -608,6 +611,30 @@ def stmt_bounds(body, a, e):
     return start, end
 
 
+_INV_CACHE = {}
+
+
+def invariant_conditions():
+    """Normalised conditions of every `invariant!(…)` in the current sources (used to refuse treating one as may-fail)."""
+    key = REPO
+    if key in _INV_CACHE:
+        return _INV_CACHE[key]
+    conds = set()
+    for d, _, fs in os.walk(os.path.join(REPO, 'ffuzzy', 'src')):
+        for f in fs:
+            if not f.endswith('.rs'):
+                continue
+            t = open(os.path.join(d, f), errors='replace').read()
+            for m in re.finditer(r'\binvariant!\s*\(', t):
+                try:
+                    e = match_delim(t, m.end() - 1)
+                except rsparse.ScanError:
+                    continue
+                conds.add(norm_ws(t[m.end():e]))
+    _INV_CACHE[key] = conds
+    return conds
+
+
 def tail_expr_start(body):
     """Position of the tail expression of a fn body `{ … }` (just after the last
     top-level `;` or block end), or of the closing brace if there is none."""
@@ -697,7 +724,13 @@ class FnAsm:
             segs.append((';\n', None))
             return segs
         body = s[it.body_open:it.body_close + 1]
-        opts = {'loop_hints': sp.loop_hints if sp else {}}
+        opts = {'loop_hints': sp.loop_hints if sp else {}, 'may_fail': sp.may_fail if sp else []}
+        if sp and sp.may_fail:
+            inv = invariant_conditions()
+            for mf in sp.may_fail:
+                if any(norm_ws(mf) in c for c in inv):
+                    raise Undecided('%s: debug_assert_may_fail "%s" matches an invariant!() condition of the sources '
+                                    '(invariant! becomes assert_unchecked in unsafe builds and must be proved)' % (self.qual, mf))
         n_loops_before = len(rules.loop_headers(body))
         try:
             body, log = rules.apply_all(body, opts)
@@ -1024,6 +1057,10 @@ pub fn verif_panic() -> !
 pub fn verif_debug_panic() -> !
     requires false,
 { panic!() }
+
+#[verifier::external_body]
+pub fn verif_nondet_bool() -> bool
+{ true }
 '''
 
 
